@@ -15,6 +15,17 @@ func applyVariant(typ, variant string, src []byte, base string) []byte {
 	switch {
 	case variant == "" || variant == "plain":
 		return src
+	case typ == "pgp-clearsign" && variant == "longline":
+		// one line longer than any 4 KiB buffer but shorter than a 64 KiB scanner limit
+		return append(append([]byte(nil), src...), []byte("long: "+strings.Repeat("0123456789abcdef", 400)+"\nafter the long line\n")...)
+	case typ == "pgp-clearsign" && variant == "no-final-newline":
+		return append(bytes.TrimRight(append([]byte(nil), src...), "\r\n"), []byte("\nlast line without a newline")...)
+	case typ == "pgp-clearsign" && variant == "dash-lines":
+		return append(append([]byte(nil), src...), []byte("- a line starting with a dash\n-----BEGIN PGP SIGNATURE-----\nFrom here\n--\n")...)
+	case typ == "pgp-clearsign" && variant == "crlf":
+		return bytes.ReplaceAll(append([]byte(nil), src...), []byte("\n"), []byte("\r\n"))
+	case typ == "pgp-clearsign" && variant == "trailing-space":
+		return append(append([]byte(nil), src...), []byte("ends with spaces   \n\ttab and space \t \n")...)
 	case typ == "jar" && variant == "nested-metainf":
 		// ordinary payload files in sub-directories of META-INF whose base names look like signature metadata
 		zr, err := zip.NewReader(bytes.NewReader(src), int64(len(src)))
